@@ -393,6 +393,18 @@ def check_case(c):
             bad = [n[1] for n in tops if n[3] is None or n[3][0] != 2]
             if bad or not tops:
                 return 'nodes %r that replace the alias in `ul>KEY*2` do not carry the alias repeater' % (bad[:4],), ra, depth
+        # ... also when the definition has repeaters of its own (C14_alias_repeat: the alias' repeater replaces them):
+        # in `ul>KEY*3` copy i of the alias is replaced by the definition's top-level nodes, each with repeat (3, i)
+        if c['a'].endswith('*2'):
+            a3 = c['a'][:-1] + '3'
+            t = au.impl_tree(a3, c['config'])
+            if t[0] == 'ok':
+                reps = [n[3] for n in t[1] if n[0] == 1]
+                m = len(reps) // 3
+                want = [(3, i, False) for i in range(3) for _ in range(m)]
+                if len(reps) % 3 or [tuple(r) if r else r for r in reps] != want:
+                    return ('the nodes that replace the three copies of the alias in %r carry the repeaters %r, not (3,0) (3,1) (3,2) on '
+                            'each copy\'s top-level nodes' % (a3, reps[:9])), ra, depth
     return None, ra, depth
 
 
